@@ -9,7 +9,7 @@ specification ("Transforming into Parsing Canonical Form"):
 Lists are described by right unfoldings (`the text of the first hi elements'), which is also what a
 writer that emits them left to right has produced after hi steps.
 (spec/schema.py: pcf is an independent executable version used by the bounded stand-in.)"""
-from pyvc.dsl import spec, opaque
+from pyvc.dsl import spec, opaque, dset
 from spec.core import str_of_int
 
 
@@ -123,3 +123,12 @@ def PROMOTABLE(w: object, r: object) -> bool:
         or (w == "long" and (r == "float" or r == "double")) \
         or (w == "float" and r == "double") \
         or (w == "string" and r == "bytes") or (w == "bytes" and r == "string")
+
+
+# ------------------------------------------------------------------ name tables (C12)
+@spec
+def MERGED(a: dict, b: dict, hi: int) -> dict:
+    """a updated with the first hi entries of b, in b's order"""
+    if hi <= 0:
+        return a
+    return dset(MERGED(a, b, hi - 1), list(b)[hi - 1], list(b.values())[hi - 1])
